@@ -553,6 +553,375 @@ fn concurrent_round(r: &mut Report, secrets: &HashMap<String, String>, g: &mut R
     r.count("concurrent_overlapping_reads_answered_with_an_error_(not_judged)", read_errors.load(Ordering::Relaxed));
 }
 
+
+// ---------------------------------------------------------------------------------------------
+// writes in flight while other writes start, fail, are abandoned and complete (DESIGN 9.2)
+// ---------------------------------------------------------------------------------------------
+
+/// a request body whose frames are released one by one by the driver (a slow client)
+struct Gate {
+    released: std::sync::atomic::AtomicUsize,
+    taken: std::sync::atomic::AtomicUsize,
+    waker: Mutex<Option<std::task::Waker>>,
+}
+
+struct GatedBody {
+    frames: Vec<bytes::Bytes>,
+    idx: usize,
+    fail_at: Option<usize>,
+    gate: Arc<Gate>,
+}
+
+impl http_body::Body for GatedBody {
+    type Data = bytes::Bytes;
+    type Error = std::io::Error;
+    fn poll_frame(mut self: Pin<&mut Self>, cx: &mut std::task::Context<'_>) -> Poll<Option<Result<http_body::Frame<bytes::Bytes>, Self::Error>>> {
+        let this = &mut *self;
+        // frame i may go out once released > i; the end of the stream once released > frames.len()
+        if this.gate.released.load(Ordering::SeqCst) <= this.idx {
+            *this.gate.waker.lock().unwrap() = Some(cx.waker().clone());
+            if this.gate.released.load(Ordering::SeqCst) <= this.idx {
+                return Poll::Pending;
+            }
+        }
+        if this.fail_at == Some(this.idx) {
+            this.fail_at = None;
+            this.idx = usize::MAX / 2;
+            this.gate.taken.fetch_add(1, Ordering::SeqCst);
+            return Poll::Ready(Some(Err(std::io::Error::new(std::io::ErrorKind::ConnectionReset, "verif: connection reset"))));
+        }
+        if this.idx >= this.frames.len() {
+            return Poll::Ready(None);
+        }
+        let f = this.frames[this.idx].clone();
+        this.idx += 1;
+        this.gate.taken.fetch_add(1, Ordering::SeqCst);
+        Poll::Ready(Some(Ok(http_body::Frame::data(f))))
+    }
+    fn size_hint(&self) -> http_body::SizeHint {
+        http_body::SizeHint::with_exact(self.frames.iter().skip(self.idx.min(self.frames.len())).map(|b| b.len() as u64).sum())
+    }
+}
+
+impl Gate {
+    fn release(&self, upto: usize) {
+        self.released.fetch_max(upto, Ordering::SeqCst);
+        if let Some(w) = self.waker.lock().unwrap().take() {
+            w.wake();
+        }
+    }
+}
+
+#[derive(Clone, Debug, PartialEq)]
+enum Fate {
+    Complete,
+    TransportError(usize),
+    Dropped,
+    /// wrong x-amz-checksum-crc32
+    BadMd5,
+}
+
+struct Slow {
+    key: String,
+    content: Vec<u8>,
+    n_frames: usize,
+    fate: Fate,
+    start: usize,
+    end: usize,
+    gate: Arc<Gate>,
+    handle: Option<tokio::task::JoinHandle<Option<u16>>>,
+    status: Option<u16>,
+    finished: bool,
+}
+
+fn md5_b64(d: &[u8]) -> String {
+    use md5::Digest;
+    b64(&md5::Md5::digest(d))
+}
+
+/// One round: 1..3 slow uploads are held open (their temporary files exist) while M other writes - good ones, ones
+/// whose body fails in transit, ones with a wrong checksum, deletes, copies - run to completion one after the other;
+/// the slow ones start and end (complete / fail in transit / are dropped / carry a wrong checksum) at random points of that
+/// sequence.  Afterwards every key must hold exactly what the acknowledged writes to it say (all-or-nothing, exactly one
+/// writer's bytes) and no temporary file may remain.  With `judge_refusals` (C18) an upload that arrived intact and
+/// was answered with an error is a violation too.
+#[allow(clippy::too_many_arguments)]
+pub fn inflight_round(r: &mut Report, prop: &str, judge_refusals: bool, secrets: &HashMap<String, String>, g: &mut Rng, rt: &tokio::runtime::Runtime, round: u64, big_m: bool) {
+    let rng_state_at_start = g.clone();
+    let w = world(rt, secrets);
+    // how many other writes happen while the slow ones are open: mostly a handful, now and then a round number of
+    // them (counters that wrap, names that are recycled, tables that fill up)
+    let m: usize = if big_m { *g.pick(&[100usize, 256, 1000, 1024]) + g.usize_below(3) } else { g.usize_below(9) };
+    let n_slow = 1 + g.usize_below(3);
+    let contended = g.chance(1, 4);
+    let mut previous: HashMap<String, Vec<u8>> = HashMap::new();
+    let mut slows: Vec<Slow> = Vec::new();
+    for i in 0..n_slow {
+        let key = if contended { "slow-contended".to_owned() } else { format!("slow-{i}") };
+        let len = if g.chance(1, 5) { 100_000 + g.usize_below(400_000) } else { 1 + g.usize_below(40_000) };
+        let mut content = vec![b'S' + i as u8; len];
+        let tag = (round * 16 + i as u64).to_be_bytes();
+        let n = tag.len().min(len);
+        content[..n].copy_from_slice(&tag[..n]);
+        let n_frames = (2 + g.usize_below(5)).min(len.max(1));
+        let fate = match g.below(20) {
+            0..=11 => Fate::Complete,
+            12..=14 => Fate::TransportError(1 + g.usize_below(n_frames.max(2) - 1)),
+            15..=17 => Fate::Dropped,
+            _ => Fate::BadMd5,
+        };
+        let start = g.usize_below(m + 1);
+        let end = start + g.usize_below(m + 1 - start);
+        if g.chance(1, 2) && !previous.contains_key(&key) {
+            let p = vec![b'p'; 1 + g.usize_below(5000)];
+            simple(rt, &w, &put_req(&key, &p));
+            previous.insert(key.clone(), p);
+        }
+        slows.push(Slow { key, content, n_frames, fate, start, end, gate: Arc::new(Gate { released: 0.into(), taken: 0.into(), waker: Mutex::new(None) }), handle: None, status: None, finished: false });
+    }
+    // the other writes, in order; model of the "f" keys (disjoint from the slow keys)
+    let mut model: HashMap<String, Option<Vec<u8>>> = HashMap::new();
+    let mut fast_kinds: HashMap<&'static str, u64> = HashMap::new();
+    let svc = w.svc.clone();
+    let mut trouble: Option<String> = None;
+    rt.block_on(async {
+        for step in 0..=m {
+            // slow uploads that start here: the request is issued, its first frame is let through and taken
+            for sl in slows.iter_mut().filter(|s| s.start == step && s.handle.is_none()) {
+                let cuts = framed(&sl.content, sl.n_frames);
+                let mut frames = Vec::new();
+                let mut off = 0;
+                for c in &cuts {
+                    frames.push(bytes::Bytes::copy_from_slice(&sl.content[off..off + c]));
+                    off += c;
+                }
+                if off < sl.content.len() {
+                    frames.push(bytes::Bytes::copy_from_slice(&sl.content[off..]));
+                }
+                sl.n_frames = frames.len();
+                if let Fate::TransportError(k) = sl.fate {
+                    sl.fate = Fate::TransportError(k.min(sl.n_frames - 1).max(1));
+                }
+                let body = GatedBody { frames, idx: 0, fail_at: if let Fate::TransportError(k) = sl.fate { Some(k) } else { None }, gate: sl.gate.clone() };
+                let mut b = http::Request::builder().method("PUT").uri(format!("/{BUCKET}/{}", sl.key)).header("host", "h").header("content-length", sl.content.len().to_string());
+                // (a checksum the backend verifies; it does not look at Content-MD5)
+                if sl.fate == Fate::BadMd5 {
+                    b = b.header("x-amz-checksum-crc32", checksum_header("crc32", b"something else").1);
+                } else if sl.n_frames % 2 == 0 {
+                    b = b.header("x-amz-checksum-crc32", checksum_header("crc32", &sl.content).1).header("content-md5", md5_b64(&sl.content));
+                }
+                let req = b.body(s3s::Body::http_body(body)).expect("request");
+                let svc2 = svc.clone();
+                sl.handle = Some(tokio::spawn(async move {
+                    match svc2.call(req).await {
+                        Ok(resp) => Some(drain(resp).await.0),
+                        Err(_) => None,
+                    }
+                }));
+                sl.gate.release(1);
+                let t0 = std::time::Instant::now();
+                while sl.gate.taken.load(Ordering::SeqCst) < 1 {
+                    if t0.elapsed() > std::time::Duration::from_secs(20) {
+                        trouble = Some("a slow upload did not take its first frame within 20 s".into());
+                        return;
+                    }
+                    tokio::time::sleep(std::time::Duration::from_micros(200)).await;
+                }
+            }
+            // slow uploads that end here
+            for sl in slows.iter_mut().filter(|s| s.end == step && s.handle.is_some() && !s.finished) {
+                sl.finished = true;
+                let h = sl.handle.take().expect("handle");
+                match sl.fate {
+                    Fate::Dropped => {
+                        // the client goes away: the request future is dropped where it stands
+                        sl.gate.release(1 + (step % sl.n_frames));
+                        tokio::time::sleep(std::time::Duration::from_micros(300)).await;
+                        h.abort();
+                        let _ = h.await;
+                        sl.status = None;
+                    }
+                    _ => {
+                        sl.gate.release(sl.n_frames + 1);
+                        match tokio::time::timeout(std::time::Duration::from_secs(60), h).await {
+                            Ok(Ok(st)) => sl.status = st,
+                            Ok(Err(e)) => {
+                                trouble = Some(format!("slow upload task: {e}"));
+                                return;
+                            }
+                            Err(_) => {
+                                trouble = Some("a released slow upload did not finish within 60 s".into());
+                                return;
+                            }
+                        }
+                    }
+                }
+            }
+            if step == m {
+                break;
+            }
+            // now and then an open slow upload gets one more frame
+            for sl in slows.iter().filter(|s| s.handle.is_some() && !s.finished) {
+                if step % 3 == 1 {
+                    let cur = sl.gate.released.load(Ordering::SeqCst);
+                    if cur + 1 < sl.n_frames {
+                        sl.gate.release(cur + 1);
+                    }
+                }
+            }
+            // the step's own write, run to completion
+            let key = format!("f{}", (step * 7 + round as usize) % 8);
+            let mut content = vec![b'f'; 1 + (step * 131 + round as usize * 17) % 6000];
+            let tag = ((round << 20) + step as u64).to_be_bytes();
+            let n = tag.len().min(content.len());
+            content[..n].copy_from_slice(&tag[..n]);
+            let choice = (step as u64 * 2_654_435_761 + round * 97) % 20;
+            let (kind, req): (&'static str, RawRequest) = match choice {
+                0..=11 => ("put", put_req(&key, &content)),
+                12..=14 => {
+                    let mut q = put_req(&key, &content);
+                    let nf = 2.min(content.len());
+                    q.framing = Some(Framing { cuts: framed(&content, nf), error_at: Some(nf.saturating_sub(1).min(step % 2)), error_kind: Some("io:ConnectionReset".into()), ..Default::default() });
+                    ("put-failing-in-transit", q)
+                }
+                15 | 16 => ("put-with-wrong-checksum", put_req(&key, &content).header("x-amz-checksum-crc32", &checksum_header("crc32", b"other").1)),
+                17 => ("delete", RawRequest::new("DELETE", &format!("/{BUCKET}/{key}")).header("host", "h")),
+                _ => {
+                    let src = format!("f{}", (step * 3) % 8);
+                    ("copy", RawRequest::new("PUT", &format!("/{BUCKET}/{key}")).header("host", "h").header("x-amz-copy-source", &format!("{BUCKET}/{src}")))
+                }
+            };
+            *fast_kinds.entry(kind).or_insert(0) += 1;
+            let Some(hreq) = req.build() else { continue };
+            let out = serve_one(&svc, hreq, 0).await;
+            let st = out.response().map_or(0, |x| x.status);
+            match kind {
+                "put" => {
+                    if st == 200 {
+                        model.insert(key.clone(), Some(content.clone()));
+                    } else if judge_refusals {
+                        trouble = Some(format!("VIOLATION:intact-upload-refused:a plain upload that arrived intact was answered {st}"));
+                        return;
+                    } else {
+                        // what the key holds now is decided by the all-or-nothing oracle: previous state kept
+                    }
+                }
+                "delete" => {
+                    if (200..300).contains(&st) {
+                        model.insert(key.clone(), None);
+                    }
+                }
+                "copy" => {
+                    let src = format!("f{}", (step * 3) % 8);
+                    if st == 200 {
+                        let v = model.get(&src).cloned().flatten();
+                        if v.is_some() {
+                            model.insert(key.clone(), v);
+                        }
+                    }
+                }
+                _ => {
+                    if st < 300 && st != 0 {
+                        trouble = Some(format!("VIOLATION:faulty-write-acknowledged:{kind} was answered {st}"));
+                        return;
+                    }
+                }
+            }
+        }
+    });
+    let wit = |what: &str| {
+        json!({"kind": "inflight", "prop": prop, "judge_refusals": judge_refusals, "rng": rng_state_at_start, "big_m": big_m, "round": round, "what": what, "other_writes": m, "other_write_kinds": fast_kinds,
+        "slow_uploads": slows.iter().map(|s| json!({"key": s.key, "len": s.content.len(), "frames": s.n_frames, "fate": format!("{:?}", s.fate), "started_before_write": s.start, "ended_before_write": s.end, "status": s.status})).collect::<Vec<_>>(),
+        "temp_files": temp_files(&w)})
+    };
+    let mclass = if m >= 100 { "many-other-writes" } else { "few-other-writes" };
+    if let Some(t) = trouble {
+        if let Some(v) = t.strip_prefix("VIOLATION:") {
+            let (sig, what) = v.split_once(':').unwrap_or((v, v));
+            r.violated(format!("{prop}/inflight/{sig}/{mclass}"), wit(what));
+        } else {
+            r.inconclusive(format!("in-flight round: {t}"));
+        }
+        return;
+    }
+    // every key of the sequential writes holds what the model says
+    for k in 0..8 {
+        let key = format!("f{k}");
+        let want = model.get(&key).cloned().flatten();
+        let got = get(rt, &w, &key);
+        if got != want {
+            r.violated(
+                format!("{prop}/inflight/acknowledged-content-changed/{mclass}"),
+                json!({"witness_of": wit("a key written by the sequential writes does not hold what its last acknowledged write stored"), "key": key,
+                    "expected": want.as_ref().map(|b| format!("{} bytes, head {}", b.len(), show_bytes(&b[..b.len().min(12)]))), "stored": got.as_ref().map(|b| format!("{} bytes, head {}", b.len(), show_bytes(&b[..b.len().min(12)])))}),
+            );
+            return;
+        }
+    }
+    // every key of the slow uploads: exactly one acknowledged writer's bytes; previous state if none was acknowledged
+    let mut keys: Vec<String> = slows.iter().map(|s| s.key.clone()).collect();
+    keys.sort();
+    keys.dedup();
+    for key in keys {
+        let got = get(rt, &w, &key);
+        let mine: Vec<&Slow> = slows.iter().filter(|s| s.key == key).collect();
+        let acked: Vec<&&Slow> = mine.iter().filter(|s| s.status.is_some_and(|c| c < 300)).collect();
+        let prev = previous.get(&key);
+        let ok = if acked.is_empty() {
+            got.as_ref() == prev || mine.iter().any(|s| s.fate == Fate::Dropped && got.as_ref() == Some(&s.content))
+        } else {
+            acked.iter().any(|s| got.as_ref() == Some(&s.content))
+        };
+        if !ok {
+            r.violated(
+                format!("{prop}/inflight/stored-content-is-not-an-acknowledged-writers/{mclass}"),
+                json!({"witness_of": wit("the key of a slow upload holds neither an acknowledged writer's bytes nor (none acknowledged) its previous state"), "key": key,
+                    "stored": got.as_ref().map(|b| format!("{} bytes, head {}", b.len(), show_bytes(&b[..b.len().min(12)]))), "previous": prev.map(Vec::len)}),
+            );
+            return;
+        }
+        for s in &mine {
+            if s.status.is_some_and(|c| c < 300) && s.fate != Fate::Complete {
+                r.violated(format!("{prop}/inflight/faulty-write-acknowledged/{mclass}"), wit("a slow upload that failed in transit / carried a wrong checksum was acknowledged"));
+                return;
+            }
+            if judge_refusals && s.fate == Fate::Complete && !s.status.is_some_and(|c| c < 300) {
+                r.violated(format!("{prop}/inflight/intact-upload-refused/{mclass}"), wit("a slow upload that arrived intact was answered with an error"));
+                return;
+            }
+        }
+    }
+    if !temp_files(&w).is_empty() {
+        r.violated(format!("{prop}/inflight/temp-file-left/{mclass}"), wit("temporary file left after every write had ended"));
+        return;
+    }
+    let fates: Vec<String> = slows.iter().map(|s| format!("{:?}", s.fate).split('(').next().unwrap_or("").to_owned()).collect();
+    r.held(format!("inflight/{mclass}/{n_slow}-slow/{}/{}", if contended { "one-key" } else { "own-keys" }, fates.join("+")));
+    r.count("inflight_rounds", 1);
+    r.count("inflight_other_writes_while_an_upload_was_open", m as u64);
+    r.observe("inflight_slow_upload_lifetimes_(start,end,of)", format!("{:?}", slows.iter().map(|s| (s.start, s.end)).collect::<Vec<_>>()) + &format!("/{m}"));
+}
+
+pub fn replay_inflight(w: &Value) -> Report {
+    let w = if w["witness_of"].is_object() { &w["witness_of"] } else { w };
+    let mut r = Report::new();
+    let mut g: Rng = serde_json::from_value(w["rng"].clone()).unwrap_or_else(|e| harness_error(&format!("bad rng state: {e}")));
+    let prop = w["prop"].as_str().unwrap_or("C19").to_owned();
+    let rt = new_runtime_real();
+    // (the secrets only configure the provider; the round's requests are anonymous)
+    inflight_round(&mut r, &prop, w["judge_refusals"].as_bool().unwrap_or(false), &secrets(1), &mut g, &rt, w["round"].as_u64().unwrap_or(0), w["big_m"].as_bool().unwrap_or(false));
+    r
+}
+
+pub fn inflight_leg(ctx: &RunCtx, prop: &'static str, judge_refusals: bool, rounds: u64, big_every: u64) -> Report {
+    let secrets = secrets(ctx.seed);
+    par_run(ctx.workers, rounds, |j, r| {
+        let rt = new_runtime_real();
+        let mut g = Rng::new(derive_seed(ctx.seed, &format!("{prop}-inflight"), j));
+        inflight_round(r, prop, judge_refusals, &secrets, &mut g, &rt, j, big_every > 0 && j % big_every == big_every - 1);
+    })
+}
+
 pub fn run(ctx: &RunCtx) -> i32 {
     let meta = CheckMeta {
         property: "C19",
@@ -584,6 +953,8 @@ pub fn run(ctx: &RunCtx) -> i32 {
     for i in 0..rounds {
         concurrent_round(&mut total, &secrets, &mut g, &rt_mt, &rt, i);
     }
+    // writes in flight while other writes start, fail and complete
+    total.merge(inflight_leg(ctx, "C19", false, ctx.tier.sz(320, 12_000), 8));
     // crash points and system-call faults (child processes under strace)
     match crate::monitor::c19crash::strace_works() {
         Err(e) => total.inconclusive(format!("crash leg not run: {e}")),
@@ -620,6 +991,8 @@ pub fn replay(v: &Value) -> i32 {
                 crate::monitor::c19crash::judge(&rt, &mut r, &case);
             }
         }
+        "inflight" => return super::replay_verdict("C19", &replay_inflight(w)),
+        _ if w["witness_of"]["kind"] == "inflight" => return super::replay_verdict("C19", &replay_inflight(w)),
         k => harness_error(&format!("C19: a witness of kind {k:?} (a concurrent round) is replayed by re-running ./check C19 with the recorded seed")),
     }
     super::replay_verdict("C19", &r)
